@@ -133,7 +133,9 @@ def confirm(pid, cands, part, report):
             vals, out_dev, txt_dev = None, 'not_reproduced', ''
             for cand in trials[:6]:
                 out_dev, txt_dev = K.native_replay(hname, cand, 'debug')
-                if out_dev == 'reproduced' and desc.strip()[:40] in txt_dev:
+                # an assertion of the harness is recognised by its text; a panic inside the library (unlabelled, key 'panic:...') by the
+                # native run panicking at all - Kani cannot show run-time formatted messages, the texts differ by construction
+                if out_dev == 'reproduced' and (desc.strip()[:40] in txt_dev or (key or '').startswith('panic:')):
                     vals = cand
                     break
             if vals is None:
